@@ -225,7 +225,7 @@ def patterned_solve_case(fggs, rng, S, viols, obs):
         else:
             msg = cmp(A.densify_pt(out['value']).reshape(n, -1), ref, S)
             if msg:
-                viols.append(C.viol(f'value:PatternedTensor.solve:{S}:patterned', msg, context=ctx))
+                viols.append(C.viol(f'value:PatternedTensor.solve:{S}:patterned' + (':huge-finite-instead-of-inf' if critical(A.densify_pt(out['value']).reshape(n, -1), ref, S) else ''), msg, context=ctx))
     if not unmodified([sa, sb], [a.physical, b.physical]):
         viols.append(C.viol(f'argument-modified:PatternedTensor.solve:{S}', 'PatternedTensor.solve modified its arguments', context=ctx))
     return 'patterned'
